@@ -141,7 +141,14 @@ func (g *generator) enum(name string, syntax string, closedFirstNonZero bool) *E
 	num := 0
 	for i := 1; i < n; i++ {
 		num += 1 + g.r.IntN(3)
-		vn := g.uniqueName(used, func() string { return strings.ToUpper(g.word()) })
+		vn := g.uniqueName(used, func() string {
+			w := strings.ToUpper(g.word())
+			if g.r.IntN(6) == 0 {
+				// a digit directly followed by upper-case letters is still UPPER_SNAKE_CASE
+				w += "_" + []string{"2D", "3D", "4XX", "4K"}[g.r.IntN(4)]
+			}
+			return w
+		})
 		e.Values = append(e.Values, &EnumValue{Name: prefix + vn, Number: num, Comment: "Value " + vn + "."})
 	}
 	if g.r.IntN(4) == 0 {
